@@ -28,6 +28,9 @@ Params == ndJsonDeserialize(IOEnv.PARAMS)[1]     \* [curve |-> "bls"|"bn"|"secp"
 \* the group order and the effective cofactor come from StdConstants.tla, never from the trace
 R    == CASE Params.curve = "bls" -> BlsR [] Params.curve = "bn" -> BnR [] Params.curve = "secp" -> SecpN
 ELL  == Params.ell
+\* the second component is tracked mod ELLB: the small torsion prime, or R itself for the traces on the
+\* degree-12 curve, where the two generators are twist(G2) and the image of G1 (E(Fp12)[r] = Z_r x Z_r)
+ELLB == IF Params.ell = 0 THEN R ELSE OfInt(Params.ell)
 HEFF == IF Params.group = 1 THEN BlsHEff1 ELSE BlsHEff2
 
 VARIABLES l, abs, cid, ok
@@ -35,20 +38,17 @@ vars == <<l, abs, cid, ok>>
 
 B2N(b) == IF b THEN 1 ELSE 0
 El(a, c) == [a |-> a, c |-> c]
-Small(n) == IF n = <<>> THEN 0 ELSE n[1]                      \* value of a one-limb BigNat
-ModEll(n) == IF ELL = 1 THEN 0 ELSE Small(Mod(n, OfInt(ELL)))
-
-GAdd(x, y) == El(AddMod(x.a, y.a, R), (x.c + y.c) % ELL)
-GNeg(x)    == El(NegMod(x.a, R), (ELL - x.c) % ELL)
+GAdd(x, y) == El(AddMod(x.a, y.a, R), AddMod(x.c, y.c, ELLB))
+GNeg(x)    == El(NegMod(x.a, R), NegMod(x.c, ELLB))
 \* n-fold sum for a natural n (BigNat):  n (aG + cT) = (n a mod R) G + (n c mod ELL) T
-GMul(x, n) == El(MulMod(x.a, Mod(n, R), R), (x.c * ModEll(n)) % ELL)
-GInf == El(Zero, 0)
+GMul(x, n) == El(MulMod(x.a, Mod(n, R), R), MulMod(x.c, Mod(n, ELLB), ELLB))
+GInf == El(Zero, Zero)
 
 Produces(e) == e.op \in {"gen", "tor", "inf", "add", "double", "neg", "mul", "same", "clear"}
 
 NewVal(e) ==
-  CASE e.op = "gen"    -> El(One, 0)
-    [] e.op = "tor"    -> El(Zero, 1 % ELL)
+  CASE e.op = "gen"    -> El(One, Zero)
+    [] e.op = "tor"    -> El(Zero, Mod(One, ELLB))
     [] e.op = "inf"    -> GInf
     [] e.op = "add"    -> GAdd(abs[e.a], abs[e.b])
     [] e.op = "double" -> GAdd(abs[e.a], abs[e.a])
@@ -61,7 +61,7 @@ ObsOK(e) ==
   CASE e.op = "eq"    -> e.res = B2N(abs[e.a] = abs[e.b])
     [] e.op = "isinf" -> e.res = B2N(abs[e.a] = GInf)
     [] e.op = "onc"   -> e.res = 1                    \* every point built by group operations is on the curve
-    [] e.op = "sub"   -> e.res = B2N(abs[e.a].c = 0)   \* subgroup_check: no cofactor component
+    [] e.op = "sub"   -> e.res = B2N(abs[e.a].c = Zero)   \* subgroup_check: no cofactor component
     \* cofactor clearing of an arbitrary curve point W (unknown logarithm): it equals multiply(W, n)
     \* for the n the library used, n is the specification's effective cofactor, and the result is
     \* in the subgroup
@@ -81,7 +81,7 @@ Next ==
      THEN LET v == NewVal(e) IN
           /\ abs' = Append(abs, v) /\ cid' = Append(cid, e.id)
           /\ ok' = (e.d = Len(abs) + 1 /\ Consistent(v, e.id)
-                    /\ (e.op = "clear" => v.c = 0))          \* clearing lands in the subgroup
+                    /\ (e.op = "clear" => v.c = Zero))       \* clearing lands in the subgroup
      ELSE /\ UNCHANGED <<abs, cid>>
           /\ ok' = ObsOK(e)
 Spec == Init /\ [][Next]_vars
